@@ -90,9 +90,38 @@ func c18Jail(tier string) int {
 		}
 	}
 	rec(nil)
+	// longer histories over {wrong password, valid login}: the jail must work again after it has been served (a second
+	// run of three failures), with and without a successful login in between
+	n := 7
+	if tier == "thorough" {
+		n = 8
+	}
+	for bits := 0; bits < 1<<n; bits++ {
+		var seq []string
+		c, jails := 0, 0
+		for i := 0; i < n; i++ {
+			a := "badpw"
+			if bits&(1<<i) != 0 {
+				a = "ok"
+			}
+			seq = append(seq, a)
+			if c == 3 {
+				jails++ // this attempt is the jailed one; the counter starts again
+				c = 0
+			}
+			if a == "ok" {
+				c = 0
+			} else {
+				c++
+			}
+		}
+		if jails >= 2 {
+			cases = append(cases, auth.JailCase{Attempts: seq, JailMS: 600})
+		}
+	}
 	_ = report.Tier
 	return RunEnumMerge("C18", "jail", EnumSpec{Prop: "C18", Level: "model_checking", Call: "c18jail", Cases: cases, Chunk: 2,
-		Rule: "all 4-attempt login sequences over 4 credential kinds that contain three consecutive failures before the last attempt"})
+		Rule: "all 4-attempt login sequences over 4 credential kinds that contain three consecutive failures before the last attempt, and all 7-attempt (thorough: 8) sequences over {wrong password, valid login} in which the jail is reached at least twice"})
 }
 
 func init() {
